@@ -15,11 +15,14 @@
 (*   frames : Seq([blk, vars : name -> cell])  the shared call stack; blk = the   *)
 (*            label is a special scope (<if>, <else>, <while>)                    *)
 (*   cells  : Seq(value)    every variable is a shared, mutable pair (Gc cell)   *)
+(*   lists  : Seq(Seq(value)) vectors are shared references into this heap       *)
 (*   out    : Seq(STRING)   lines printed; pr : Seq(value) items printed         *)
 (*   st     : "run" | "halt" | "fail" | "oom"  (oom = instruction / value kind    *)
 (*            outside this model: the run is not judged)                          *)
-(* Values are MSLang's scalars (VInt, VBool, VStr, VNil) and machine function     *)
-(* values [t |-> "fn", loc, cb].                                                  *)
+(* Values are MSLang's VInt, VBool, VStr, VNil, VList (an index into `lists`),    *)
+(* machine function values [t |-> "fn", loc, cb] and array views                  *)
+(* [t |-> "view", id, ix] (Primitive::HeapPrimitive: what indexing a vector       *)
+(* pushes; readers look through it, ptr_mut / bin_op_assign write through it).    *)
 (* The code is a dump written by the real compiler / loader (hook H4).           *)
 EXTENDS MSLang
 
@@ -29,7 +32,7 @@ Act(fi, args, cb) == [fi |-> fi, ip |-> 0, ops |-> <<>>, sp |-> 0, args |-> args
 FnFrame == [blk |-> FALSE, vars |-> NoFrame]
 BlkFrame == [blk |-> TRUE, vars |-> NoFrame]
 
-Boot(entry) == [acts |-> <<Act(entry, <<>>, NoCb)>>, frames |-> <<FnFrame>>, cells |-> <<>>,
+Boot(entry) == [acts |-> <<Act(entry, <<>>, NoCb)>>, frames |-> <<FnFrame>>, cells |-> <<>>, lists |-> <<>>,
                 out |-> <<>>, pr |-> <<>>, st |-> "run", why |-> ""]
 
 -----------------------------------------------------------------------------
@@ -52,8 +55,11 @@ Adv(a) == [a EXCEPT !.ip = @ + 1]
 PushV(a, v) == [a EXCEPT !.ops = Append(@, v)]
 TopV(a) == a.ops[Len(a.ops)]
 PopV(a) == [a EXCEPT !.ops = SubSeq(@, 1, Len(@) - 1)]
-Scalar(v) == v.t \in {"int", "bool", "str", "nil", "fn"}
-HeapOf(m) == St0        \* scalars only: MSLang's Show / ValEq / BinOp never look at the heap
+View(id, ix) == [t |-> "view", id |-> id, ix |-> ix]
+HeapOf(m) == [St0 EXCEPT !.lists = m.lists]     \* what MSLang's Show / ValEq / BinOp look at
+(* Primitive::move_out_of_heap_primitive *)
+Deref(m, v) == IF v.t = "view" THEN m.lists[v.id][v.ix + 1] ELSE v
+DerefAll(m, xs) == [k \in 1..Len(xs) |-> Deref(m, xs[k])]
 
 (* Stack::find_name_in_function: from the top frame down to and including the frame of the *)
 (* running function                                                                         *)
@@ -105,12 +111,18 @@ Enter(m, a0, fi, args, cb) ==       \* a0 = the caller with its operands already
 Goto(m, a, off) == SetTop(m, [a EXCEPT !.ip = @ + off])
 PushScope(m, a) == [SetTop(m, Adv([a EXCEPT !.sp = @ + 1])) EXCEPT !.frames = Append(@, BlkFrame)]
 
-ShowV(v) == Show(v, St0, FALSE)
-RECURSIVE JoinShown(_, _, _)
-JoinShown(xs, i, acc) == IF i > Len(xs) THEN acc
-                         ELSE JoinShown(xs, i + 1, acc \o (IF i > 1 THEN ", " ELSE "") \o ShowV(xs[i]))
+ShowV(m, v) == Show(Deref(m, v), HeapOf(m), FALSE)
+RECURSIVE JoinShown(_, _, _, _)
+JoinShown(m, xs, i, acc) == IF i > Len(xs) THEN acc
+                            ELSE JoinShown(m, xs, i + 1, acc \o (IF i > 1 THEN ", " ELSE "") \o ShowV(m, xs[i]))
 
-BinResult(op, l, r) == BinOp(IF op = "=" THEN "==" ELSE op, l, r, St0)
+BinResult(m, op, l, r) == BinOp(IF op = "=" THEN "==" ELSE op, Deref(m, l), Deref(m, r), HeapOf(m))
+
+(* the hook's name of the Primitive variant of a printed scalar ("" = not compared) *)
+KindName(v) == CASE v.t = "int" -> "Int" [] v.t = "bool" -> "Bool" [] v.t = "str" -> "Str" [] OTHER -> ""
+RECURSIVE HasFn(_, _, _)
+HasFn(m, v, fuel) == LET d == Deref(m, v) IN
+                     d.t = "fn" \/ (d.t = "list" /\ fuel > 0 /\ \E k \in 1..Len(m.lists[d.id]) : HasFn(m, m.lists[d.id][k], fuel - 1))
 
 (* one instruction *)
 Exec1(F, m) ==
@@ -129,13 +141,13 @@ Exec1(F, m) ==
       [] op = "pop" -> IF n = 0 THEN FailM(m, "machine") ELSE SetTop(m, Adv(PopV(a)))
       [] op = "printn" ->
             IF a1 # "*" THEN OomM(m, "printn index")
-            ELSE IF \E k \in 1..n : a.ops[k].t = "fn" THEN OomM(m, "print of a function")
-            ELSE [SetTop(m, Adv(a)) EXCEPT !.out = Append(@, JoinShown(a.ops, 1, "")), !.pr = @ \o a.ops]
-      [] op = "store" -> IF n # 1 THEN FailM(m, "machine") ELSE Register(SetTop(m, Adv(PopV(a))), a1, TopV(a))
-      [] op = "store_fast" -> IF n # 1 THEN FailM(m, "machine") ELSE BindLocal(SetTop(m, Adv(PopV(a))), a1, TopV(a))
+            ELSE IF \E k \in 1..n : HasFn(m, a.ops[k], 3) THEN OomM(m, "print of a function")
+            ELSE [SetTop(m, Adv(a)) EXCEPT !.out = Append(@, JoinShown(m, a.ops, 1, "")), !.pr = @ \o [k \in 1..n |-> [text |-> ShowV(m, a.ops[k]), kind |-> KindName(Deref(m, a.ops[k]))]]]
+      [] op = "store" -> IF n # 1 THEN FailM(m, "machine") ELSE Register(SetTop(m, Adv(PopV(a))), a1, Deref(m, TopV(a)))
+      [] op = "store_fast" -> IF n # 1 THEN FailM(m, "machine") ELSE BindLocal(SetTop(m, Adv(PopV(a))), a1, Deref(m, TopV(a)))
       [] op = "store_object" ->
             IF n # 1 \/ ~a.cb.has \/ a1 \notin DOMAIN a.cb.m THEN FailM(m, "machine")
-            ELSE [SetTop(m, Adv(PopV(a))) EXCEPT !.cells[a.cb.m[a1]] = TopV(a)]
+            ELSE [SetTop(m, Adv(PopV(a))) EXCEPT !.cells[a.cb.m[a1]] = Deref(m, TopV(a))]
       [] op = "store_skip" ->
             IF n # 1 \/ Len(ar) < 3 \/ TopV(a).t # "bool" \/ ~IsLit(ar[3]) THEN FailM(m, "machine")
             ELSE IF (ar[2] = "1") = TopV(a).b THEN Goto(m, a, LitVal(ar[3]))
@@ -159,26 +171,32 @@ Exec1(F, m) ==
             IF n # 2 THEN FailM(m, "machine") ELSE SetTop(m, Adv([a EXCEPT !.ops = <<a.ops[2], a.ops[1]>>]))
       [] op = "bin_op" ->
             IF n < 2 THEN FailM(m, "machine")
-            ELSE LET r == BinResult(a1, a.ops[n - 1], a.ops[n]) IN
-                 IF r.st.status = "type" THEN OomM(m, "bin_op " \o a1 \o " on " \o a.ops[n - 1].t \o "," \o a.ops[n].t)
+            ELSE LET r == BinResult(m, a1, a.ops[n - 1], a.ops[n]) IN
+                 IF r.st.status = "type" THEN OomM(m, "bin_op " \o a1 \o " on " \o Deref(m, a.ops[n - 1]).t \o "," \o Deref(m, a.ops[n]).t)
                  ELSE IF r.st.status # "ok" THEN FailM(m, r.st.status)
                  ELSE SetTop(m, Adv([a EXCEPT !.ops = <<r.v>>]))          \* clear_and_set_stack
       [] op = "bin_op_assign" ->
-            IF Len(ar) < 2 THEN OomM(m, "bin_op_assign through a pointer")
+            IF Len(ar) < 2 THEN
+                 (IF n < 2 \/ a.ops[n - 1].t # "view" THEN FailM(m, "machine")
+                  ELSE LET p == a.ops[n - 1]
+                           r == BinResult(m, SubSeq(a1, 1, Len(a1) - 1), p, a.ops[n]) IN
+                       IF r.st.status = "type" THEN OomM(m, "bin_op_assign " \o a1)
+                       ELSE IF r.st.status # "ok" THEN FailM(m, r.st.status)
+                       ELSE [SetTop(m, Adv([a EXCEPT !.ops = Append(SubSeq(a.ops, 1, n - 2), r.v)])) EXCEPT !.lists[p.id][p.ix + 1] = r.v])
             ELSE LET c == Resolve(m, a, ar[2]) IN
                  IF c = 0 \/ n = 0 THEN FailM(m, "machine")
-                 ELSE LET r == BinResult(SubSeq(a1, 1, Len(a1) - 1), m.cells[c], TopV(a)) IN
+                 ELSE LET r == BinResult(m, SubSeq(a1, 1, Len(a1) - 1), m.cells[c], TopV(a)) IN
                       IF r.st.status = "type" THEN OomM(m, "bin_op_assign " \o a1)
                       ELSE IF r.st.status # "ok" THEN FailM(m, r.st.status)
                       ELSE [SetTop(m, Adv([a EXCEPT !.ops[n] = r.v])) EXCEPT !.cells[c] = r.v]
       [] op \in {"equ", "neq"} ->
             IF n # 2 THEN FailM(m, "machine")
-            ELSE IF a.ops[1].t = "fn" \/ a.ops[2].t = "fn" THEN OomM(m, "comparison of functions")
-            ELSE LET e == ValEq(a.ops[2], a.ops[1], St0) IN
+            ELSE IF HasFn(m, a.ops[1], 3) \/ HasFn(m, a.ops[2], 3) THEN OomM(m, "comparison of functions")
+            ELSE LET e == ValEq(Deref(m, a.ops[2]), Deref(m, a.ops[1]), HeapOf(m)) IN
                  SetTop(m, Adv([a EXCEPT !.ops = <<VBool(IF op = "equ" THEN e ELSE ~e)>>]))
       [] op = "neg" ->
             IF n = 0 THEN FailM(m, "machine")
-            ELSE IF TopV(a).t # "int" THEN OomM(m, "neg of " \o TopV(a).t)
+            ELSE IF TopV(a).t # "int" THEN OomM(m, "neg of " \o TopV(a).t)       \* incl. views: Primitive::negate on a pointer
             ELSE LET r == INeg(TopV(a).v) IN
                  IF r.fail # "" THEN FailM(m, r.fail) ELSE SetTop(m, Adv([a EXCEPT !.ops[n] = VInt(r.v)]))
       [] op = "not" ->
@@ -198,17 +216,18 @@ Exec1(F, m) ==
             IF a.sp > 0 THEN PopFrames(SetTop(m, Adv([a EXCEPT !.sp = @ - 1])), 1) ELSE SetTop(m, Adv(a))
       [] op = "assert" ->
             IF n # 1 THEN FailM(m, "machine")
-            ELSE IF TopV(a).t = "bool" /\ TopV(a).b THEN SetTop(m, Adv(PopV(a))) ELSE FailM(m, "assert")
+            ELSE LET v == Deref(m, TopV(a)) IN
+                 IF v.t = "bool" /\ v.b THEN SetTop(m, Adv(PopV(a))) ELSE FailM(m, "assert")
       [] op = "unwrap" ->
             IF n = 0 THEN FailM(m, "machine")
-            ELSE IF TopV(a).t = "nil" THEN FailM(m, "nil") ELSE SetTop(m, Adv(a))
+            ELSE IF Deref(m, TopV(a)).t = "nil" THEN FailM(m, "nil") ELSE SetTop(m, Adv(a))
       [] op = "unwrap_into" ->
             IF n = 0 THEN FailM(m, "machine")
-            ELSE LET v == TopV(a) IN
+            ELSE LET v == Deref(m, TopV(a)) IN
                  Register(SetTop(m, Adv(PushV(PopV(a), VBool(v.t # "nil")))), a1, v)
       [] op = "jmp_not_nil" ->
             IF n = 0 \/ ~IsLit(a1) THEN FailM(m, "machine")
-            ELSE IF TopV(a).t = "nil" THEN SetTop(m, Adv(PopV(a))) ELSE Goto(m, a, LitVal(a1))
+            ELSE IF Deref(m, TopV(a)).t = "nil" THEN SetTop(m, Adv(PopV(a))) ELSE Goto(m, a, LitVal(a1))
       [] op = "arg" ->
             IF ~IsLit(a1) \/ LitVal(a1) < 0 \/ LitVal(a1) >= Len(a.args) THEN FailM(m, "machine")
             ELSE SetTop(m, Adv(PushV(a, a.args[LitVal(a1) + 1])))
@@ -221,10 +240,11 @@ Exec1(F, m) ==
                  LET fi == FnIndex(F, a1) IN
                  IF fi = 0 THEN OomM(m, "call of " \o a1) ELSE Enter(m, [a EXCEPT !.ops = <<>>], fi, a.ops, NoCb)
             ELSE IF n = 0 THEN FailM(m, "machine")
-            ELSE IF TopV(a).t # "fn" THEN OomM(m, "call of a " \o TopV(a).t)
-            ELSE LET fi == FnIndex(F, TopV(a).loc) IN
-                 IF fi = 0 THEN OomM(m, "call of " \o TopV(a).loc)
-                 ELSE Enter(m, [a EXCEPT !.ops = <<>>], fi, SubSeq(a.ops, 1, n - 1), TopV(a).cb)
+            ELSE IF Deref(m, TopV(a)).t # "fn" THEN OomM(m, "call of a " \o Deref(m, TopV(a)).t)
+            ELSE LET f == Deref(m, TopV(a))
+                     fi == FnIndex(F, f.loc) IN
+                 IF fi = 0 THEN OomM(m, "call of " \o f.loc)
+                 ELSE Enter(m, [a EXCEPT !.ops = <<>>], fi, SubSeq(a.ops, 1, n - 1), f.cb)
       [] op = "call_self" -> Enter(m, [a EXCEPT !.ops = <<>>], a.fi, a.ops, a.cb)
       [] op = "ret" ->
             IF n > 1 THEN FailM(m, "machine")
@@ -233,6 +253,42 @@ Exec1(F, m) ==
             IF n # 0 THEN FailM(m, "machine")
             ELSE IF Len(m.acts) > 1 THEN OomM(m, "module value")
             ELSE Return(m, FALSE, VNil, BlocksOnTop(m.frames, Len(m.frames)) + 1)
+      [] op = "make_vector" ->
+            IF Len(ar) = 0 THEN [SetTop(m, Adv([a EXCEPT !.ops = <<VList(Len(m.lists) + 1)>>])) EXCEPT !.lists = Append(@, DerefAll(m, a.ops))]
+            ELSE [SetTop(m, Adv(PushV(a, VList(Len(m.lists) + 1)))) EXCEPT !.lists = Append(@, <<>>)]
+      [] op = "vec_op" ->
+            IF Len(a1) >= 1 /\ SubSeq(a1, 1, 1) = "+" THEN
+                 LET c == Local(m, SubSeq(a1, 2, Len(a1))) IN
+                 IF n # 1 \/ c = 0 THEN FailM(m, "machine")
+                 ELSE IF m.cells[c].t # "list" THEN FailM(m, "machine")
+                 ELSE [SetTop(m, Adv(PopV(a))) EXCEPT !.lists[m.cells[c].id] = Append(@, Deref(m, TopV(a)))]
+            ELSE IF Len(a1) >= 3 /\ SubSeq(a1, 1, 1) = "[" THEN
+                 LET ixs == SubSeq(a1, 2, Len(a1) - 1)
+                     c == IF IsDigits(ixs) THEN 0 ELSE Local(m, ixs)
+                     ixv == IF IsDigits(ixs) THEN VInt(DigitsVal(ixs, Len(ixs))) ELSE IF c = 0 THEN VNil ELSE m.cells[c] IN
+                 IF n = 0 \/ ixv.t # "int" THEN FailM(m, "machine")
+                 ELSE LET x == Deref(m, TopV(a)) IN
+                      IF ixv.v < 0 THEN FailM(m, "index")
+                      ELSE IF x.t = "list" THEN
+                           (IF ixv.v >= Len(m.lists[x.id]) THEN FailM(m, "index")
+                            ELSE SetTop(m, Adv(PushV(PopV(a), View(x.id, ixv.v)))))
+                      ELSE IF x.t = "str" THEN
+                           (IF ixv.v >= Len(x.s) THEN FailM(m, "index")
+                            ELSE SetTop(m, Adv(PushV(PopV(a), VStr(SubSeq(x.s, ixv.v + 1, ixv.v + 1))))))
+                      ELSE FailM(m, "machine")
+            ELSE IF a1 = "reverse" THEN
+                 (IF n = 0 \/ TopV(a).t # "list" THEN FailM(m, "machine")
+                  ELSE [SetTop(m, Adv(a)) EXCEPT !.lists[TopV(a).id] = Rev(@)])
+            ELSE IF a1 = "mut" THEN
+                 (IF n # 2 \/ Len(ar) < 2 \/ ~IsDigits(ar[2]) \/ Deref(m, a.ops[1]).t # "list" THEN FailM(m, "machine")
+                  ELSE LET id == Deref(m, a.ops[1]).id k == DigitsVal(ar[2], Len(ar[2])) IN
+                       IF k >= Len(m.lists[id]) THEN FailM(m, "machine")
+                       ELSE [SetTop(m, Adv(PopV(a))) EXCEPT !.lists[id][k + 1] = Deref(m, a.ops[2])])
+            ELSE OomM(m, "vec_op " \o a1)
+      [] op = "ptr_mut" ->
+            IF n < 2 \/ a.ops[n - 1].t # "view" THEN FailM(m, "machine")
+            ELSE LET p == a.ops[n - 1] IN
+                 [SetTop(m, Adv([a EXCEPT !.ops = SubSeq(@, 1, n - 2)])) EXCEPT !.lists[p.id][p.ix + 1] = Deref(m, a.ops[n])]
       [] OTHER -> OomM(m, "instruction " \o op)
 
 (* the loop of Function::run: an activation whose instruction pointer has run off the end *)
